@@ -1085,6 +1085,10 @@ func (d *Data) handleSupervoxelSizes(ctx *datastore.VersionedCtx, w http.Respons
 	}
 
 	counts := idx.GetSupervoxelCounts()
+	if len(counts) == 0 {
+		w.WriteHeader(http.StatusNotFound)
+		return
+	}
 	var supervoxels_json, sizes_json string
 	for sv, count := range counts {
 		supervoxels_json += strconv.FormatUint(sv, 10) + ","
